@@ -868,9 +868,8 @@ theorem C07_unanswerable_request_terminates (cfg : Cfg) (st : OutSt) (n : Name) 
     · cases st <;> simp_all
   rw [if_neg (by simp [h1])]
   simp only [hret, hiq, hty, Bool.and_self, Bool.true_and]
-  split
-  · exact ⟨_, _, rfl⟩
-  · exact ⟨_, _, rfl⟩
+  repeat' split
+  all_goals first | exact ⟨_, _, rfl⟩ | simp_all
 
 /-- **a handler that leaves an element open terminates the stream** (review A, finding 3): with
 the output open, a handler that returns nil after writes that leave an element open — or contain
